@@ -111,6 +111,11 @@ def make_case(rng, i):
         tgt = rng.choice(sids)
         construct["stored"] = tgt
         construct["stored_expr"] = value_expr(spec, tgt)
+        if rng.random() < 0.5:
+            # a start_value given together with a stored state: the model's value is the current state
+            alt = rng.choice(sids)
+            construct["start"] = alt
+            construct["start_expr"] = value_expr(spec, alt)
     steps = [construct]
     if spec["any_async"]:
         steps.append({"op": "activate"})
